@@ -1,8 +1,7 @@
-(* Fw/Scope.v — face-scope classification (C09): the scope each transport constructor gives its face, as translated from the
-   source into GenScope.v, against the specification "a face is local iff its peer is this host": loopback remote address for
-   the IP transports, always for the Unix-stream and internal transports, never for multicast UDP and the null transport. *)
+(* FwScope/Scope.v — the classification theorem over the observed table, tied to C09's c09_scope. *)
 From Coq Require Import List NArith Arith Bool Lia.
-From Fw Require Import Model Spec Run C09 ScopeDefs GenScope ScopeModel.
+From Fw Require Import Model Spec Run C09.
+From FwScope Require Import GenScope ScopeModel.
 Import ListNotations.
 Open Scope N_scope.
 
@@ -11,13 +10,19 @@ Proof. vm_compute. reflexivity. Qed.
 
 Lemma scope_classification c lb : c < n_ctors -> transport_scope c lb = Some (spec_local c lb).
 Proof.
-  intros Hc. pose proof scope_table_checked as T. unfold scope_table_ok in T. rewrite forallb_forall in T.
+  intros Hc. pose proof scope_table_checked as T. unfold scope_table_ok in T.
+  apply andb_true_iff in T. destruct T as [T1 T2]. rewrite forallb_forall in T1, T2.
   assert (Hin : In c (map N.of_nat (seq 0 (N.to_nat n_ctors)))).
   { apply in_map_iff. exists (N.to_nat c). split; [apply N2Nat.id|]. apply in_seq. lia. }
-  specialize (T c Hin). rewrite forallb_forall in T.
+  specialize (T2 c Hin). rewrite forallb_forall in T2.
   assert (Hlb : In lb [true; false]) by (destruct lb; cbn; auto).
-  specialize (T lb Hlb). destruct (transport_scope c lb) as [b|]; cbn in T; [|discriminate].
-  apply Bool.eqb_prop in T. congruence.
+  specialize (T2 lb Hlb). unfold transport_scope.
+  destruct (observed_of c lb) as [|v rest] eqn:E; [discriminate|].
+  assert (Hv : In v (observed_of c lb)) by (rewrite E; left; reflexivity).
+  unfold observed_of in Hv. apply in_map_iff in Hv. destruct Hv as (r & <- & Hr). apply filter_In in Hr. destruct Hr as [Hr Hf].
+  apply andb_true_iff in Hf. destruct Hf as [Hf1 Hf2]. apply N.eqb_eq in Hf1. apply Bool.eqb_prop in Hf2.
+  specialize (T1 r Hr). apply N.eqb_eq in T1. rewrite T1, Hf1, Hf2. unfold spec_code.
+  destruct (spec_local c lb); reflexivity.
 Qed.
 
 (* a face to a peer with a non-loopback IP address, built by any of the IP transports, is non-local ... *)
